@@ -128,13 +128,22 @@ def gen_deep_cancel_history(rng, tier):
             ops.append(["L", side, lev * tick, rng.randint(1, 3), rng.choice([None, None, None, 30]), 0])
             if rng.random() < 0.5:
                 ops.append(["T"])
+        stopped_bursts = rng.random() < 0.3
         for _ in range(rng.randint(3, 10)):
             # burst: cancels of arbitrary resting orders, then of the best, then an order from the other side
-            # priced at the k-th best resting level (resolved on the live depth view) - no trade in between
+            # priced at the k-th best resting level (resolved on the live depth view) - no trade in between.
+            # In some histories the cancels arrive while the market is stopped (pre-open, halt) and matching
+            # resumes before the other side arrives.
+            if stopped_bursts:
+                ops.append(["R", False])
             for _ in range(rng.randint(0, 3)):
                 ops.append(["CR", side])
             for _ in range(rng.randint(0, 3)):
                 ops.append(["CB", side])
+            if stopped_bursts:
+                if rng.random() < 0.5:
+                    ops.append(["T"])
+                ops.append(["R", True])
             for _ in range(rng.randint(1, 2)):
                 r = rng.random()
                 if r < 0.75:
